@@ -192,7 +192,8 @@ def gen_ras(rng, wild=False):
         align = rng.choice((1, 2, 4, 8, 16, 32, 64)) if rng.random() < 0.4 else min(64, 1 << (size.bit_length() - 1))
         flags = (1 if rng.random() < 0.7 else 0) | (2 if rng.random() < 0.1 else 0)
         if wild and rng.random() < 0.2:
-            align = rng.choice((0, 3, 12, 128))
+            # still inside the contract of the (private) class: BaseCompiler::_new_stack only passes powers of two up to 64 and sizes > 0
+            size = rng.choice((1, 3, 63, 65, 1000, 65536, 1 << 20))
         out.append("%d:%d:%d:%d" % (size, align, flags, rng.choice((0, 1, 2, 5, 20, 1000))))
     return "ras " + (",".join(out) or "-")
 
